@@ -2,3 +2,4 @@ import GfaGen.Cigar
 import GfaGen.Geometry
 import GfaGen.Regexes
 import GfaGen.Multiply
+import GfaGen.Seq
